@@ -364,6 +364,9 @@ func runC17(p *Prog, r *Report) {
 		}
 		r.End()
 	}
+	if want("C17.7") {
+		ruleBucketOrder(p, r, "C17.7")
+	}
 	if want("C17.6") {
 		r.Begin("C17.6", "E-ORD", "capacity trim: every change of lru.used / lru.capacity in Promote and SetCapacity is followed, before mu.Unlock, by the test used > capacity whose false edge is the only way out of the eviction loop; a node is admitted only if Size() <= capacity and only when not resident; a banned node is never re-inserted; every removal from the list subtracts the node's charge or re-inserts it", 8)
 		over := func(v ssa.Value) bool {
